@@ -21,6 +21,9 @@ from ..model import Program, call_name, norm
 from ..poly import Rat, eval_expr
 from ..report import AnalysisError
 
+# helpers of _sample_chain that the rules look for as calls; any other private helper is inlined
+SAMPLE_CHAIN_ANCHORS = frozenset({"_update_chain_stats", "_update_monitor_stats", "_flush_memmap_chain_data", "_check_and_process_init_state", "_file_paths_to_memmaps", "_memmaps_to_file_paths"})
+
 PROP = "C16"
 
 
@@ -376,7 +379,7 @@ def rule_r2(rep, program: Program):
                 r.inst({"adapter call": f"{fn.qualname}: {norm(n.func)}"})
                 if fn.name not in allowed_callers and not (fn.cls is not None and fn.cls.is_subclass_of("Adapter")):
                     r.violate(PROP, f"{fn.qualname}:calls:{norm(n.func)}", "adapter methods are invoked outside the chain loop / stage finalisation", node=n, file=fn.file)
-    f = program.func("samplers", "_sample_chain")
+    f = program.func_inlined("samplers", "_sample_chain", keep=SAMPLE_CHAIN_ANCHORS)
     cfg = CFG(f.node)
 
     def atom(e, pol):
